@@ -330,7 +330,7 @@ func evalC15Built(v *engine.Verdict, c *engine.Case, x *C15Case) {
 		s2 := *sc
 		s2.Convs = append([]engine.FuncSpec(nil), sc.Convs...)
 		for i := range s2.Convs {
-			if s2.Convs[i].ID == 1 {
+			if i == 0 {
 				s2.Convs[i].Built = built
 			}
 		}
@@ -342,7 +342,7 @@ func evalC15Built(v *engine.Verdict, c *engine.Case, x *C15Case) {
 		}
 		var results []string
 		for k := 0; k < x.Calls; k++ {
-			w.Specs[1].Fail = x.FailAt == k+1
+			w.Specs[s2.Convs[0].ID].Fail = x.FailAt == k+1
 			o := w.Call(target, args)
 			if o.Panic != "" {
 				v.Failf("call %d (built=%v) panicked: %s", k, built, o.Panic)
@@ -390,12 +390,12 @@ func evalC15Built(v *engine.Verdict, c *engine.Case, x *C15Case) {
 		v.Failf("results differ: built %v, ordinary %v", resA, resB)
 		return
 	}
-	if !strings.Contains(logA, "f1(") {
+	if !strings.Contains(logA, fmt.Sprintf("f%d(", sc.Convs[0].ID)) {
 		v.Class("built-function-not-executed")
 	} else {
 		v.Class("built-function-executed")
 	}
-	consumed := strings.Contains(logA, "<-f1:")
+	consumed := strings.Contains(logA, fmt.Sprintf("<-f%d:", sc.Convs[0].ID))
 	if consumed {
 		v.Class("built-output-consumed-downstream")
 	}
@@ -467,7 +467,8 @@ func genC15(g engine.G) *engine.Case {
 		}
 		nin := g.Int(0, 2)
 		nout := g.Int(1, 2)
-		mid := engine.FuncSpec{ID: 1, InForm: engine.FormStruct, OutForm: engine.FormStruct, HasErr: true}
+		// id 2: empty sides of the built variant are passed to BuildFunc as nil
+		mid := engine.FuncSpec{ID: 1 + g.Int(0, 1), InForm: engine.FormStruct, OutForm: engine.FormStruct, HasErr: true}
 		sc := &engine.Scenario{}
 		names := map[string]bool{}
 		for i := 0; i < nin; i++ {
